@@ -27,7 +27,9 @@ pub enum Victim {
     EntryAdd { t: u16, comp: u8, p: u32 },
     EntryRemove { t: u16, comp: u8 },
     CloneWorld,
-    CloneFrom,
+    /// `prep`: 0 nothing, 1 clear the destination first, 2 remove its entities one by one,
+    /// 3 clear + shrink_to_fit; `swap`: destination is world 0 instead of world 1
+    CloneFrom { prep: u8, swap: bool },
     EqWorlds,
     DebugFmt,
     Serialize { enc: Enc },
@@ -47,7 +49,7 @@ impl Victim {
             Victim::EntryAdd { .. } => "Entry::add",
             Victim::EntryRemove { .. } => "Entry::remove",
             Victim::CloneWorld => "clone",
-            Victim::CloneFrom => "clone_from",
+            Victim::CloneFrom { .. } => "clone_from",
             Victim::EqWorlds => "eq",
             Victim::DebugFmt => "Debug",
             Victim::Serialize { .. } => "serialize",
@@ -106,6 +108,27 @@ fn build<R: Reg>(base: &[Op]) -> Option<Built<R>> {
     Some(Built { interp })
 }
 
+/// Un-faulted preparation of the victim operation (runs before the fuse is armed).
+fn prepare_victim<R: Reg>(b: &mut Built<R>, v: &Victim) {
+    if let Victim::CloneFrom { prep, swap } = v {
+        let d = if *swap { 0 } else { 1 };
+        let slot = b.interp.world_mut(d);
+        match prep % 4 {
+            1 => R::clear(&mut slot.real),
+            2 => {
+                for id in slot.model.live.clone() {
+                    R::remove(&mut slot.real, id);
+                }
+            }
+            3 => {
+                R::clear(&mut slot.real);
+                R::shrink_to_fit(&mut slot.real);
+            }
+            _ => {}
+        }
+    }
+}
+
 /// Run the victim operation. Returns Err(payload) if it unwound.
 fn run_victim<R: Reg>(b: &mut Built<R>, v: &Victim) -> Result<(), Box<dyn std::any::Any + Send>> {
     let interp = &mut b.interp;
@@ -141,7 +164,13 @@ fn run_victim<R: Reg>(b: &mut Built<R>, v: &Victim) -> Result<(), Box<dyn std::a
                 let c = R::clone_world(&s0.real);
                 drop(c);
             }
-            Victim::CloneFrom => R::clone_from(&mut s1.real, &s0.real),
+            Victim::CloneFrom { swap, .. } => {
+                if *swap {
+                    R::clone_from(&mut s0.real, &s1.real)
+                } else {
+                    R::clone_from(&mut s1.real, &s0.real)
+                }
+            }
             Victim::EqWorlds => {
                 let _ = R::eq(&s0.real, &s1.real);
                 let _ = R::eq(&s0.real, &s0.real);
@@ -223,6 +252,9 @@ pub fn run_fault_case<R: Reg>(case: &FaultCase, slot: usize, only: Option<(u8, u
         };
         // is there an archetype with >= 2 columns and >= 2 rows?
         let multi = b.interp.slots[0].as_ref().map_or(false, |s| R::dump(&s.real).archetypes.iter().any(|a| a.columns.len() >= 2 && a.length >= 2));
+        let _ = b.interp.world_mut(0);
+        let _ = b.interp.world_mut(1);
+        prepare_victim::<R>(&mut b, &case.victim);
         ledger::reset_ticks();
         let r = run_victim::<R>(&mut b, &case.victim);
         let ticks = ledger::ticks();
@@ -264,6 +296,7 @@ pub fn run_fault_case<R: Reg>(case: &FaultCase, slot: usize, only: Option<(u8, u
                 };
                 let _ = b.interp.world_mut(0);
                 let _ = b.interp.world_mut(1);
+                prepare_victim::<R>(&mut b, &case.victim);
                 ledger::take_errors();
                 ledger::arm(callback(kind), k);
                 let r = run_victim::<R>(&mut b, &case.victim);
@@ -334,7 +367,7 @@ fn victim_strategy() -> BoxedStrategy<Victim> {
         4 => (any::<u16>(), any::<u8>(), any::<u32>()).prop_map(|(t, comp, p)| Victim::EntryAdd { t, comp, p }),
         3 => (any::<u16>(), any::<u8>()).prop_map(|(t, comp)| Victim::EntryRemove { t, comp }),
         3 => Just(Victim::CloneWorld),
-        4 => Just(Victim::CloneFrom),
+        6 => (0u8..4, any::<bool>()).prop_map(|(prep, swap)| Victim::CloneFrom { prep, swap }),
         2 => Just(Victim::EqWorlds),
         1 => Just(Victim::DebugFmt),
         3 => prop::sample::select(ENCS.to_vec()).prop_map(|enc| Victim::Serialize { enc }),
@@ -361,7 +394,7 @@ fn case_strategy(thorough: bool) -> BoxedStrategy<FaultCase> {
     base.entry_query = 0;
     base.entries_query = 0;
     base.reserve = 1;
-    base.w0_bias = 75;
+    base.w0_bias = 60;
     base.max_ops = if thorough { 14 } else { 9 };
     base.insert = 16;
     base.extend = 8;
